@@ -215,7 +215,10 @@ fn make_case(ctx: &Ctx, idx: u64) -> Case {
         p.sequences = false;
     }
     let g = if idx % 8 == 0 { v2_config(&mut rng) } else { gen::generate(&mut rng, &p) };
-    let overflow_ok = plain || idx % 8 == 0;
+    // a tap-hold nested in the hold/timeout action of another tap-hold starts waiting only after
+    // an overflow has forced the outer one into "hold" - possibly after its key's release was
+    // already consumed; such configurations are driven without overflow as well
+    let overflow_ok = (plain && !has_nested_tap_hold(&g.text)) || idx % 8 == 0;
     let keys: Vec<u16> = g.keys.iter().map(|k| osc(k)).collect();
     let mut gaps: Vec<u32> = vec![0, 0, 1, 2, 7];
     for n in g.numbers.iter().take(12) {
@@ -239,6 +242,39 @@ fn make_case(ctx: &Ctx, idx: u64) -> Case {
         hists.push((name.to_string(), h));
     }
     Case { g, hists, overflow_ok }
+}
+
+fn has_nested_tap_hold(cfg: &str) -> bool {
+    use crate::gen::sexp::{self, Node};
+    fn is_th(n: &Node) -> bool {
+        matches!(n, Node::List(l) if matches!(l.first(), Some(Node::Atom(a)) if a.starts_with("tap-hold")))
+    }
+    fn contains_th(n: &Node) -> bool {
+        is_th(n) || matches!(n, Node::List(l) if l.iter().any(contains_th))
+    }
+    fn nested(n: &Node) -> bool {
+        match n {
+            Node::List(l) => (is_th(n) && l.iter().skip(1).any(contains_th)) || l.iter().any(nested),
+            _ => false,
+        }
+    }
+    // aliases can hide nesting; treat any alias use inside a tap-hold as nested too
+    fn th_with_alias(n: &Node) -> bool {
+        fn has_alias(n: &Node) -> bool {
+            match n {
+                Node::Atom(a) => a.starts_with('@'),
+                Node::List(l) => l.iter().any(has_alias),
+            }
+        }
+        match n {
+            Node::List(l) => (is_th(n) && has_alias(n)) || l.iter().any(th_with_alias),
+            _ => false,
+        }
+    }
+    match sexp::parse(cfg) {
+        Some(nodes) => nodes.iter().any(|n| nested(n) || th_with_alias(n)),
+        None => true,
+    }
 }
 
 /// insert a 40-tick pause whenever more than `max` events would be pending without a tick
